@@ -162,7 +162,7 @@ def real_op(rt, T, td, opn, a, p):
     if opn == 'copy':
         return a[0].copy()
     if opn == 'diag':
-        return np.diag(a[0])
+        return np.diag(a[0], k=p.get('k', 0))
     if opn == 'trace':
         return a[0].trace()
     if opn == 'tolist_fromlist':
@@ -340,7 +340,7 @@ def ref_op(td, opn, a, p):
         'transpose': lambda x: x.T, 'flatten': lambda x: x.flatten(), 'swapaxes': lambda x: x.swapaxes(p['a1'], p['a2']),
         'getitem': lambda x: x[_key(p['key'])], 'roll': lambda x: np.roll(x, p['shift'], axis=p.get('axis')),
         'flip': lambda x: np.flip(x, axis=p.get('axis')), 'expand_dims': lambda x: np.expand_dims(x, p['axis']),
-        'squeeze': lambda x: np.squeeze(x), 'copy': lambda x: x.copy(), 'diag': lambda x: np.diag(x),
+        'squeeze': lambda x: np.squeeze(x), 'copy': lambda x: x.copy(), 'diag': lambda x: np.diag(x, k=p.get('k', 0)),
         'tolist_fromlist': lambda x: x.flatten(),
     }
     if opn in shape_ops:
@@ -698,6 +698,7 @@ def gen(rng, cfg, tier='quick', kf=(), effects=False):
                 elif opn == 'diag':
                     if vx.ndim not in (1, 2):
                         continue
+                    pr = {'k': rng.choice((0, 0, 1, -1, 2, -2))}    # off-diagonals of non-square matrices too
                 elif opn == 'trace':
                     if vx.ndim != 2:
                         continue
